@@ -495,6 +495,11 @@ def replay(rp):
             res = search_step(p, j, mode, x0m[:, j], [col(v, j, p["R"]) for v in its], alpha)
             print("first iterate that is not soft(z + alpha Op^H(y - Op z), eps*alpha/2):", res)
             bad = res is not None
+    elif k == "alpha-default":
+        p = prob_from(rp["problem"])
+        _, _, alpha, _ = run_solver(p, 0, 1, 0.0, want_its=False)
+        print("default alpha =", alpha, " 1/lambda_max =", 1.0 / p["lam"])
+        bad = not (abs(alpha * p["lam"] - 1.0) <= 1e-6)
     elif k == "half":
         _, cs, _ = _pylops()
         n, own, doc = half_bruteforce([{"via": "direct", "t": rp["t"], "c": rp["c"], "in": np.array([rp["u"]]),
@@ -637,15 +642,18 @@ def main(tier):
         p, j = rc["p"], rc["col"]
         pd = prob_dict(p, j)
         name = "ISTA" if rc.get("mode", 0) == 0 else "FISTA"
-        if len(R.violations) >= 12:
+        if budget[0] <= 0:
             return          # enough concrete evidence; do not spend the time budget on more searches
+        budget[0] -= 1
+        if 3 in codes and p["alpha"] is None:
+            codes = [c for c in codes if c != 3]      # reported below as "default step size is not 1/lambda_max"
         if 3 in codes or 4 in codes:
             R.violation("generator problem: step-size premise / shape check failed in Coq for problem %d (codes %s)" % (p["id"], codes),
                         {"kind": "generator", "problem": pd, "alpha_used": rc["alpha"], "codes": codes}, no_input=True)
         if 2 in codes:
             res = search_descent(p, j, rc["x0"], rc["its"])
             if res:
-                R.violation("%s increases the objective at iteration %d: F=%.15g -> %.15g (alpha=%.6g <= 1/lambda_max=%.6g, eps=%g, m=%d n=%d %s x0=%s)"
+                R.violation("%s increases the objective at iteration %d: F=%.15g -> %.15g (alpha=%.6g, 1/lambda_max=%.6g, eps=%g, m=%d n=%d %s x0=%s)"
                             % (name, res[0], res[1], res[2], rc["alpha"], 1 / p["lam"], p["eps"], p["m"], p["n"],
                                "complex" if p["cplx"] else "real", p["x0k"]),
                             {"kind": "descent", "problem": pd, "niter": len(rc["its"]), "k": res[0], "F_k": res[1], "F_k1": res[2]})
@@ -682,7 +690,9 @@ def main(tier):
             R.violation("FISTA does not reach the ISTA objective value: F(ista)=%.12g F(fista)=%.12g" % (Fi, Ff),
                         {"kind": "fista-objective", "problem": pd, "cap": 4000 if tier == "quick" else 6000, "F_ista": Fi, "F_fista": Ff})
 
-    for grp in ("istaR", "kktR", "istaC"):
+    budget = [0]
+    for grp in ("kktR", "istaR", "istaC"):      # property-level (KKT) failures first
+        budget[0] = 6
         for cid, codes in sorted(fail[grp].items()):
             handle_run(cid, codes, idmap[cid])
 
@@ -705,8 +715,9 @@ def main(tier):
             ndef += 1
             a = p.get("alpha_used")
             if a is None or not (abs(a * p["lam"] - 1.0) <= 1e-6):
-                R.violation("default step size is not 1/lambda_max(Op^H Op): alpha=%r, 1/lambda_max=%r" % (a, 1.0 / p["lam"]),
-                            {"kind": "descent", "problem": prob_dict(p, 0), "niter": 30, "alpha_default": a})
+                R.violation("default step size is not 1/lambda_max(Op^H Op): alpha=%r, 1/lambda_max=%r (m=%d n=%d %s)"
+                            % (a, 1.0 / p["lam"], p["m"], p["n"], "complex" if p["cplx"] else "real"),
+                            {"kind": "alpha-default", "problem": prob_dict(p, 0), "alpha_default": a})
 
     # ---- coverage
     nontriv = set()
